@@ -1,6 +1,7 @@
 (* E2E — the median is not changed when every score is recorded the same number of times.
-   (In pairwise mode a non-label self pair is a candidate twice and mirrored: its score enters the aggregation
-   four times per batch; a label self pair twice; every other ordered pair once.) *)
+   (The mirror row of a self pair (c, c) carries the same ordered pair, so its score enters the aggregation twice per
+   batch; every other ordered pair once.  Since /repo b3d9d15 the candidate list holds every pair once; the lemma is
+   stated for any multiplicity m > 0, so the composition does not depend on that.) *)
 From Coq Require Import List ZArith Arith Bool Lia Permutation Sorting.Sorted.
 From Outrank Require Import Common.Median Pipeline.Aggregate Pipeline.AggregateProofs.
 Import ListNotations.
